@@ -872,6 +872,22 @@ def _extract_expr_closure(src, spec, ed, first, limit):
     return toks[first].pos, toks[last].end
 
 
+def _bind_header(spec, m):
+    """closure parameter names are incidental: `$1`, `$2`.. in params / contract / entry stand for the
+    names captured by the groups of header_re in the closure's parameter list"""
+    if not m or not m.groups():
+        return spec
+    sp = dict(spec)
+    for key in ("params", "contract", "entry"):
+        if sp.get(key):
+            txt = sp[key]
+            for gi, g in enumerate(m.groups(), 1):
+                if g is not None:
+                    txt = txt.replace("$%d" % gi, g)
+            sp[key] = txt
+    return sp
+
+
 def extract_block_as_fn(src, loc, spec, ed):
     """Loop-body / closure-body unit (DESIGN 3.3): emit the *real* text of loop #k's body (or of
     closure #k's body) of a function as a stand-alone fn whose parameters are the free variables,
@@ -933,10 +949,11 @@ def extract_block_as_fn(src, loc, spec, ed):
                     j += 1
                 if spec.get("expr_closure") and toks[j].text != "{":
                     hdr = " ".join(src.text[t.pos:toks[j].pos].split())
-                    if not spec.get("header_re") or re.search(spec["header_re"], hdr):
+                    hm = re.search(spec["header_re"], hdr) if spec.get("header_re") else None
+                    if not spec.get("header_re") or hm:
                         k += 1
                         if k == spec["closure"]:
-                            return _extract_expr_closure(src, spec, ed, j, close)
+                            return _extract_expr_closure(src, _bind_header(spec, hm), ed, j, close)
                 elif toks[j].text == "{" and not spec.get("expr_closure"):
                     hdr = " ".join(src.text[t.pos:toks[j].pos].split())
                     # ordinal counts block-bodied closures whose parameter list matches header_re
